@@ -1,1 +1,2 @@
 pub mod walk;
+pub mod report;
